@@ -171,6 +171,17 @@ CLAIMED: dict[str, tuple[str, str, str, str, str]] = {
         "shape/ordering rules on the resolution loops + sibling agreement + who-may-mutate (argument sharing) lint",
         "DESIGN §5 C15",
     ),
+    "C29": (
+        "other",
+        "Decides four structural clauses: the text wrapper's configuration ('wrapped only at whitespace'; violated on the "
+        "pinned tree and recorded as a known finding because a golden file pins the behaviour), totality of wrap's "
+        "destructuring, that every label/message of a diagnostic and its children is printed under no condition but its own "
+        "presence, and that the source map re-reads files and slices exactly the span's lines. Column arithmetic of highlight "
+        "markers, indentation trimming and termination are not decided.",
+        "Trusted: ast parser; textwrap's documented defaults (break_long_words=True, break_on_hyphens=True).",
+        "configuration lint + guard-minimality of output statements + must-write on the CFG",
+        "DESIGN §5 C29",
+    ),
 }
 
 NOT_APPLICABLE: dict[str, str] = {
